@@ -246,6 +246,8 @@ def _local_env(fn_node):
     return env
 
 
+STR_TO_STR = {"strip", "lstrip", "rstrip", "lower", "upper", "casefold", "replace", "removeprefix", "removesuffix", "title",
+              "capitalize", "swapcase", "expandtabs", "translate", "format", "encode", "decode"}
 DECODERS = ("unquote", "unquote_plus", "parse_qsl", "parse_qs", "int")
 READER_HELPER_DEPTH = 2
 
@@ -329,6 +331,8 @@ def _groups_of(expr, sc, depth=0):
         return set()
     if isinstance(expr, ast.Call) and isinstance(expr.func, ast.Name) and expr.func.id in ("str", "cast") and expr.args:
         return _groups_of(expr.args[-1], sc, depth + 1)
+    if isinstance(expr, ast.Call) and isinstance(expr.func, ast.Attribute) and expr.func.attr in STR_TO_STR:
+        return _groups_of(expr.func.value, sc, depth + 1)   # still (a normalisation of) that component's text; R5 judges it
     if isinstance(expr, ast.BoolOp):
         if isinstance(expr.op, ast.And):      # `x and f(x)`: the value, when there is one, is the last operand
             return _groups_of(expr.values[-1], sc, depth + 1)
